@@ -143,7 +143,7 @@ pub fn run(ctx: &Ctx) -> Report {
     let total = ctx.cases(12_000, 500_000);
     let mut o = GenOpts::default();
     o.long_steps = ctx.thorough();
-    let tally = run_sharded(ctx, total, |_idx, r, t| {
+    let tally = run_sharded(ctx, total, |idx, r, t| {
         let mut o = o.clone();
         match r.below(4) {
             0 => {
@@ -154,6 +154,12 @@ pub fn run(ctx: &Ctx) -> Report {
             2 => o.cogen = Tri::Always,
             _ => {}
         }
+        if idx % 2000 == 7 {
+            // hourly series (a plain and a leap year): the matching factor is a per-step formula whatever the step length
+            o.steps = Some(*r.pick(&[8760usize, 8784]));
+            o.pv = Tri::Always;
+            t.count("hourly_series");
+        }
         let case = gen_case(r, &o, 20);
         check_case(ctx, &case, t);
     });
@@ -163,6 +169,7 @@ pub fn run(ctx: &Ctx) -> Report {
             quotas.push((format!("regime.{m}.{reg}"), tally.get(&format!("regime.{m}.{reg}")), 200));
         }
     }
+    quotas.push(("hourly_series".into(), tally.get("hourly_series"), 1));
     quotas.push(("cases_with_both_sources_at_some_step".into(), tally.get("cases_with_both_sources_at_some_step"), 300));
     quotas.push(("steps_where_load_matching_lowers_self_use".into(), tally.get("steps_where_load_matching_lowers_self_use"), 300));
     Report {
